@@ -9,7 +9,7 @@ DRIVER = os.path.join(common.VERIF, "harness", "loky_faults.py")
 
 def model(c):
     def run(name, must_hold=True, **k):
-        consts = dict(W={1, 2}, NT=3, Calls=2, Kills=1, SpawnFirst=True, FlagFirst=True); consts.update(k)
+        consts = dict(W={1, 2}, NT=3, Calls=2, Kills=1, SpawnFirst=True, FlagFirst=True, ExitKnown=True, Patience=True, Parents=set(), KillsSelf=True); consts.update(k)
         p = os.path.join(common.VERIF, "out", "cfg", "LK_%s.cfg" % name)
         tlc.write_cfg(p, constants=consts, spec="Spec", invariants=["AtMostOneFailurePerKill"], properties=["NoHang", "NoPartialResults", "FailsOnlyOnFault"])
         return c.model_check("LokyExecutor[%s]" % name, "LokyExecutor", p, must_hold=must_hold, workers=8, timeout=900)
@@ -19,10 +19,17 @@ def model(c):
     if not c.quick:
         run("3workers_2kills", W={1, 2, 3}, Kills=2)
         run("3kills_4calls", Kills=3, Calls=4, NT=2)
+    run("exit_status_never_available", ExitKnown=False, Kills=2, Calls=3, NT=2)
+    run("workers_with_children", Parents={1, 2}, Kills=2, Calls=3, NT=2)
     r = run("manager_started_before_spawn", must_hold=False, NT=1, SpawnFirst=False)
     if r.ok: raise tlc.TLCError("LokyExecutor lost its sensitivity: starting the manager thread before spawning the workers must hang")
     r2 = run("pending_failed_before_flag", must_hold=False, FlagFirst=False)
     if r2.ok: raise tlc.TLCError("LokyExecutor lost its sensitivity: failing the pending work items before flagging the executor as broken must hang")
+    r3 = run("unbounded_wait_for_exit_status", must_hold=False, ExitKnown=False, Patience=False)
+    if r3.ok: raise tlc.TLCError("LokyExecutor lost its sensitivity: waiting without bound for an exit status that never comes must hang")
+    r4 = run("kill_tree_spares_the_parent", must_hold=False, Parents={1}, KillsSelf=False)
+    if r4.ok: raise tlc.TLCError("LokyExecutor lost its sensitivity: a kill_process_tree that spares a worker with children must hang (join)")
+    c.extra["model_sensitivity_env"] = ["exit status never available and no bound on the wait -> %s" % (r3.violated,), "kill tree spares a worker that has children -> %s" % (r4.violated,)]
     c.extra["model_sensitivity"] = ["manager thread started before the workers are spawned -> %s" % (r.violated,),
                                     "pending work items failed before the executor is flagged as broken -> %s" % (r2.violated,)]
 
@@ -61,7 +68,14 @@ def body(c):
         S += [dict(stage="idle_flag_window", signal="KILL", victims=1, managed=False), dict(stage="idle_flag_window", signal="KILL", victims=1, managed=True),
               dict(stage="task_start", signal="TERM", victims=2, managed=True), dict(stage="idle", signal="KILL", victims=2, managed=True),
               dict(stage="mid_task", signal="SEGV", victims=2, managed=False)]
+        # a surviving worker has child processes of its own; the process cannot collect its children's exit status
+        S += [dict(stage="has_child", signal="KILL", victims=1, managed=False), dict(stage="has_nested", signal="KILL", victims=1, managed=True),
+              dict(stage="task_start", signal="KILL", victims=1, managed=False, sigchld="ign"), dict(stage="mid_task", signal="SEGV", victims=1, managed=True, sigchld="ign"),
+              dict(stage="task_start", signal="exit", victims=1, managed=True, sigchld="reaper"), dict(stage="idle", signal="KILL", victims=1, managed=False, sigchld="reaper")]
     else:
+        S += [dict(stage=st, signal=sg, victims=1, managed=m) for st in ("has_child", "has_nested") for sg in ("KILL", "TERM", "SEGV", "exit") for m in (False, True)]
+        S += [dict(stage=st, signal=sg, victims=1, managed=m, sigchld=sc) for sc in ("ign", "reaper") for st in ("task_start", "mid_task", "result_pickle", "idle", "cold_single", "has_child")
+              for sg in (("KILL", "SEGV") if st != "result_pickle" else ("KILL", "exit")) for m in (False, True)]
         S += [dict(stage="idle_flag_window", signal=sg, victims=v, managed=m) for sg in ("KILL", "TERM") for v in (1, 2) for m in (False, True)]
         S += [dict(stage="big_args", signal=sg, victims=v, managed=m) for sg in ("KILL", "TERM", "SEGV", "exit") for v in (1, 2) for m in (False, True)]
         S += [dict(stage="startup", signal=sg, victims=v, managed=m, delay=dl) for sg in ("KILL", "SEGV") for v in (1, 2) for m in (False, True) for dl in (0.0, 0.001, 0.003, 0.01, 0.03)]
@@ -104,8 +118,8 @@ def body(c):
                 c.violation(dict(key, problem="dead_pid_reused", call=nm), "C10: results claim to come from killed workers", {})
     c.traces_validated = len(S)
     c.rule = ("fault scenarios on the real loky backend, one driver process each: stage of the victim's life cycle (task start, mid-task external kill, argument "
-              "unpickling, result pickling, while sending a 60 MB result, with 2 MiB task arguments all dispatched at once (feeder thread blocked on the call pipe), idle between calls, during the start-up of the next call (kill 0-30 ms after the call began), idle with the manager thread pre-empted just before it flags the executor as broken while the next call submits, single-batch call on a cold executor) x signal (SIGKILL, SIGTERM, "
-              "SIGSEGV, os._exit, real-time signal) x victims (1, 2) x with/without a with-block; each scenario = calls A (healthy), B (fault), C (same object), "
+              "unpickling, result pickling, while sending a 60 MB result, with 2 MiB task arguments all dispatched at once (feeder thread blocked on the call pipe), idle between calls, during the start-up of the next call (kill 0-30 ms after the call began), idle with the manager thread pre-empted just before it flags the executor as broken while the next call submits, single-batch call on a cold executor) while a surviving worker has child processes of its own (a helper subprocess, the workers of a nested loky call)) x signal (SIGKILL, SIGTERM, "
+              "SIGSEGV, os._exit, real-time signal) x SIGCHLD disposition (default, ignored, a thread reaping every child) x victims (1, 2) x with/without a with-block; each scenario = calls A (healthy), B (fault), C (same object), "
               "D (new object); distinct = scenario")
     c.assumptions += ["watchdog 40 s per call (normal < 2 s)", "the 'while sending' stage is timing dependent (kill 50 ms after the task announced its return)"]
 
